@@ -24,4 +24,30 @@ theorem ulen_nonneg (truth : Term → Bool) (w : Int) :
     ∃ v : Int, util_ulen truth w = Out.ret [] (Term.int v) ∧ 0 ≤ v :=
   ⟨max w 0, ulen_refines truth w, by omega⟩
 
+/-- **upad as written**: the target width is the greatest DISPLAY width (`ulen`) of the strings; each string gets
+    `width - ulen(value)` spaces (computed per string with `ulen`, never with `len` or `str.ljust`), in front for right
+    alignment, behind otherwise — `Render.upad`. -/
+theorem upad_code (truth : Term → Bool) :
+    util_upad truth =
+      let width := Term.app "max" [Term.app "GeneratorExp" [Term.app "ulen" [Term.sym "x"], Term.app "in" [Term.sym "x", Term.sym "strings", Term.app "if" []]]]
+      Out.fall [Term.app "for" [Term.sym "value", Term.sym "strings", Term.app "block"
+        [Term.app "assign" [Term.sym "padding", Term.app "Mult" [Term.sym "' '", Term.app "Sub" [width, Term.app "ulen" [Term.sym "value"]]]],
+         Term.app "yield" [Term.app "ifexp" [Term.app "Eq" [Term.sym "align", Term.sym "'right'"],
+           Term.app "Add" [Term.sym "padding", Term.sym "value"], Term.app "Add" [Term.sym "value", Term.sym "padding"]]]]]] := rfl
+
+/-- **utruncate as written**: the first prefix `string[:i]` (i = 1 .. len-1) whose display width exceeds `width` decides:
+    the result is the prefix one character shorter; if no proper prefix overflows, the whole string (the whole string
+    itself is never measured: `Render.utruncate`, `C20.utruncate_last_char_quirk`). -/
+theorem utruncate_code (truth : Term → Bool) :
+    util_utruncate truth = Out.ret [Term.app "for" [Term.sym "i", Term.app "range" [Term.int 1, Term.app "len" [Term.sym "string"]], Term.app "block"
+      [Term.app "if" [Term.app "Gt" [Term.app "ulen" [Term.app "getitem" [Term.sym "string", Term.app "slice" [Term.sym "None", Term.sym "i"]]], Term.sym "width"],
+        Term.app "block" [Term.app "return" [Term.app "getitem" [Term.sym "string", Term.app "slice" [Term.sym "None", Term.app "Sub" [Term.sym "i", Term.int 1]]]]],
+        Term.app "block" []]]]] (Term.sym "string") := rfl
+
+/-- the renderers take their options by keyword only, every one defaulting to None (= "use the PRINT_* setting"). -/
+theorem renderer_signatures :
+    DataFrame_to_string_signature = ["self", "*", "max_rows=None", "max_width=None", "truncate_width=None"] ∧
+    Vector_to_string_signature = ["self", "*", "max_elements=None"] ∧
+    ListOfDicts_to_string_signature = ["self", "*", "max_items=None"] := ⟨rfl, rfl, rfl⟩
+
 end DI.Tie.C20
